@@ -139,6 +139,23 @@ def _impl(sc):
                     if x != y:
                         out['fixpoint_diff'] = [i, x[:200], y[:200]]
                         break
+            # the same resource rendered independently of the library, with the insignificant white space of
+            # its text nodes written as character references: it loads to the same resource
+            r3 = copy.deepcopy(sc['res'])
+            for lx in r3['lexicons']:
+                for y in lx.get('synsets', []):
+                    for t in y.get('definitions', []) + y.get('examples', []) + ([y['ili_definition']] if y.get('ili_definition') else []):
+                        t['_pad'] = 'refs'
+                for e in lx.get('entries', []):
+                    for s_ in e.get('senses', []):
+                        for t in s_.get('examples', []):
+                            t['_pad'] = 'refs'
+            f3 = d / 'foreign.xml'
+            f3.write_text(docs.to_xml(r3), encoding='utf-8')
+            try:
+                out['foreign_loaded'] = lmf.load(f3, progress_handler=None)
+            except Exception as e:
+                out['foreign_error'] = type(e).__name__ + ': ' + str(e)[:200]
         except Exception as e:
             out['load_error'] = type(e).__name__ + ': ' + str(e)[:200]
         return out
@@ -196,6 +213,13 @@ def judge(ctx, sc, im, mo_dump, mo_load):
     if 'load_error' in im:
         ctx.fail('dumped-file-loads', small, {'error': im['load_error']})
         return
+    if 'foreign_error' in im:
+        ctx.fail('independent-rendering-of-the-resource-loads', small, {'error': im['foreign_error']})
+    elif 'foreign_loaded' in im and canon(im['foreign_loaded']) != canon(im['loaded']):
+        from props.c01 import diff as _diff
+        dd = _diff(canon(im['foreign_loaded']), canon(im['loaded']))
+        ctx.fail('independent-rendering(white-space-as-character-references)-loads-to-the-same-resource', small,
+                 {'path': dd[0] if dd else '?', 'foreign': dd[1] if dd else None, 'dumped': dd[2] if dd else None})
     if mo_load is not None:
         if not mo_load.get('ok'):
             ctx.disagree(small, 'loaded', mo_load, 'load: model rejects the dumped tree')
